@@ -97,9 +97,11 @@ class Elf(BinFormat):
                 elif P.p_type == PT_INTERP:
                     self.dynamic = True
                     self.Phdr.append(P)
-                elif not P.p_type in Consts.All["p_type"].keys():
-                    logger.verbose("invalid segment detected (removed)")
                 else:
+                    if not P.p_type in Consts.All["p_type"].keys():
+                        logger.verbose("unknown p_type: %#x" % P.p_type)
+                    # segments of unknown (OS/processor-specific) type are kept:
+                    # Phdr is the file's program header table.
                     self.Phdr.append(P)
 
         # read section header table: unused by loader, can raise error
